@@ -27,6 +27,8 @@
 
 
 #include <xalanc/XalanDOM/XalanDocumentFragment.hpp>
+#include <xalanc/XalanDOM/XalanElement.hpp>
+#include <xalanc/XalanDOM/XalanNamedNodeMap.hpp>
 
 
 
@@ -904,6 +906,45 @@ StylesheetRoot::getNodeSetByKey(
 
 
 
+// Determine if the nearest xml:space attribute on the element, or on an
+// ancestor, has the value "preserve".
+static bool
+isXMLSpacePreserve(const XalanElement&  theElement)
+{
+    const XalanNode*    theNode = &theElement;
+
+    while (theNode != 0 && theNode->getNodeType() == XalanNode::ELEMENT_NODE)
+    {
+        const XalanNamedNodeMap* const  theAttributes = theNode->getAttributes();
+
+        const XalanNode* const  theAttribute =
+            theAttributes == 0 ? 0 :
+                theAttributes->getNamedItemNS(
+                    DOMServices::s_XMLNamespaceURI,
+                    Constants::ATTRNAME_SPACE);
+
+        if (theAttribute != 0)
+        {
+            const XalanDOMString&   theValue = theAttribute->getNodeValue();
+
+            if (equals(theValue, Constants::ATTRVAL_PRESERVE) == true)
+            {
+                return true;
+            }
+            else if (equals(theValue, Constants::ATTRVAL_DEFAULT) == true)
+            {
+                return false;
+            }
+        }
+
+        theNode = theNode->getParentNode();
+    }
+
+    return false;
+}
+
+
+
 bool
 StylesheetRoot::internalShouldStripSourceNode(const XalanText&  textNode) const
 {
@@ -933,7 +974,11 @@ StylesheetRoot::internalShouldStripSourceNode(const XalanText&  textNode) const
 
             if (theTester(*theElement) != XPath::eMatchScoreNone)
             {
-                return theTester.getType() == XalanSpaceNodeTester::eStrip;
+                // Even if the element is in the set of whitespace-stripping
+                // element names, the text node is preserved when xml:space
+                // is in effect with the value "preserve".
+                return theTester.getType() == XalanSpaceNodeTester::eStrip &&
+                       isXMLSpacePreserve(*theElement) == false;
             }
 
             ++i;
